@@ -353,7 +353,7 @@ def r5(R):
                      "clamped by `min` against something the engine holds. `LIMIT 18446744073709551615` is a valid request; a buffer of that "
                      "capacity panics with `capacity overflow` (or aborts the process) instead of returning rows or an error")
     SINKS = {"with_capacity": 0, "with_capacity_and_hasher": 0, "with_capacity_in": 0, "reserve": 1, "reserve_exact": 1, "try_reserve": None, "resize": 1,
-             "resize_with": 1, "from_elem": 1, "repeat": 1, "extend_from_within": None}
+             "resize_with": 1, "from_elem": 1, "repeat": 1, "extend_from_within": None, "split_off": 1, "rotate_left": 1, "rotate_right": 1}
     nsrc = nsink = 0
     roots = [b for b in prog.bodies.values() if b.crate == "kolibrie" and not b.is_closure and "::tests::" not in b.key]
     for b in sorted(roots, key=lambda x: x.key):
